@@ -184,7 +184,7 @@ int ezc3d::ParametersNS::GroupNS::Parameter::read(ezc3d::c3d &file, int nbCharIn
 
 
     // Byte 5+nbCharInName ==> Number of characters in group description
-    int nbCharInDesc(file.readInt(1*ezc3d::DATA_TYPE::BYTE));
+    size_t nbCharInDesc(file.readUint(1*ezc3d::DATA_TYPE::BYTE)); // unsigned, a description can have up to 255 characters
     // Byte 6+nbCharInName ==> Group description
     if (nbCharInDesc)
         _description = file.readString(static_cast<unsigned int>(nbCharInDesc));
